@@ -133,9 +133,8 @@ theorem isectImpl_exact_nonparallel (a1 a2 b1 b2 : Pt) (hk : krossOf a1 a2 b1 b2
        if t = 0 ∨ t = 1 then .point (atA b1 b2 t) else .point (atA a1 a2 s)) := by
   unfold Arith.isectImpl
   simp only [Arith.exact, Arith.sub, Arith.mul, Arith.div, Arith.add, Arith.cross, Arith.dot, Arith.midPoint, id]
-  have hk' : ((a2.x - a1.x) * (b2.y - b1.y) - (a2.y - a1.y) * (b2.x - b1.x)) *
-      ((a2.x - a1.x) * (b2.y - b1.y) - (a2.y - a1.y) * (b2.x - b1.x)) > 0 := (sq_pos_iff_ne _).2 hk
-  simp only [hk', if_true]
+  have hk' : ((a2.x - a1.x) * (b2.y - b1.y) - (a2.y - a1.y) * (b2.x - b1.x)) ≠ 0 := hk
+  simp only [ne_eq, hk', not_false_eq_true, if_true]
   rfl
 
 theorem s_mul_kross (a1 a2 b1 b2 : Pt) (hk : krossOf a1 a2 b1 b2 ≠ 0) :
